@@ -219,17 +219,8 @@ func setAlphabet() []setOp {
 			setOp{kind: "compute-toggle", a: s, name: fmt.Sprintf("Compute{toggle %v}", s)},
 		)
 		for _, d := range subsets() {
-			disjoint := true
-			for _, x := range s {
-				for _, y := range d {
-					if x == y {
-						disjoint = false
-					}
-				}
-			}
-			if disjoint {
-				ops = append(ops, setOp{kind: "apply", a: s, d: d, name: fmt.Sprintf("Apply(+%v,-%v)", s, d)})
-			}
+			// overlapping pairs included: Apply adds first, then deletes, and reports both steps
+			ops = append(ops, setOp{kind: "apply", a: s, d: d, name: fmt.Sprintf("Apply(+%v,-%v)", s, d)})
 		}
 	}
 	ops = append(ops,
@@ -859,7 +850,7 @@ func main() {
 	cli.Main(&cli.Property{
 		ID: "C11", Level: "model_checking", Scenarios: scenarios(), Parts: parts,
 		QuickBound: 2, ThoroughBound: 3, QuickUnbounded: true, ThoroughUnbounded: true, Cache: true, QuickSecs: 45, ThoroughSecs: 600,
-		RaceHB: &cli.RaceHB{QuickBound: 1, ThoroughBound: 2},
+		RaceHB:      &cli.RaceHB{QuickBound: 1, ThoroughBound: 2},
 		Rule:        "H: breadth-first search to the fixpoint of the reachable (insertion-ordered) state space over universe {1,2,3}: OrderedMap Set/Delete/Clear and iteration with a consumer deleting the visited key; Set Add/Delete/AddAll/DeleteAll/Replace/Apply/Compute/Clear/Encode-Decode with every subset (and the set itself) as argument, every probe (Has/HasAll/Equals/Intersect/Filter/Clone/Is/Any/ToSlice/Iterator/Range/ForEach/Size) after every step; SetArithmetic Add/Subtract with thresholds 1 and 2 over all mutation pairs (added, deleted), overlapping ones included. S: all interleavings of 7 scenarios of concurrent Set/OrderedMap method calls; distinct = distinct states / observation logs",
 		Assumptions: []string{"Apply is exercised with disjoint added/deleted sets", "Replace is defined as Clear followed by adding the new elements in their order"},
 		NotReached:  []string{"universes larger than 3 elements", "more than 3 concurrent callers"},
